@@ -376,3 +376,47 @@ Example C02_example_repeated_request :
   Ok (DU 8, OStack [[[0;1;0;1]; [0;0;1;0]; [0;1;0;1]]]).
 Proof. exact example_repeated_request. Qed.
 Print Assumptions C02_example_repeated_request.
+
+(* ---- construction: which inputs are accepted ------------------------------------------ *)
+Theorem C02_construction_accepts_iff : forall segs d px,
+  wf_dtype d -> zlen segs <= dtype_max d -> 1 <= dtype_max d -> segs <> [] ->
+  (forall p v, In p px -> In v p -> 0 <= v) ->
+  ((exists out, ctor_labelmap4 segs d px = Ok out) <->
+   forall p, In p px -> zlen p = zlen segs /\ (forall v, In v p -> v = 0 \/ v = 1) /\ zsum p <= 1) /\
+  (forall k, ctor_labelmap4 segs d px = Err k -> k = "ValueError"%string).
+Proof. exact ctor4_accepts_iff. Qed.
+Print Assumptions C02_construction_accepts_iff.
+
+Theorem C02_construction_labelmap_input_accepts_iff : forall segs d px,
+  (forall v, In v px -> 0 <= v) ->
+  ((exists out, ctor_labelmap3 segs d px = Ok out) <-> forall v, In v px -> v = 0 \/ In v segs) /\
+  (forall out, ctor_labelmap3 segs d px = Ok out -> out = map (cast d) px) /\
+  (forall k, ctor_labelmap3 segs d px = Err k -> k = "ValueError"%string).
+Proof. exact ctor3_accepts_iff. Qed.
+Print Assumptions C02_construction_labelmap_input_accepts_iff.
+
+(* ---- which reads are accepted, at the entry points ------------------------------------------ *)
+Theorem C02_read_accepts_iff : forall e am st keys req o r,
+  read e am st keys req o = Ok r <->
+  (req <> [] /\ entry_args_ok e keys = true /\
+   unique_frames (segtype_eqb (s_ty st) LABELMAP) (s_frames st) = true /\
+   policy e am st keys = None /\ seg_frame st keys req o = Ok r).
+Proof. exact read_accepts_iff. Qed.
+Print Assumptions C02_read_accepts_iff.
+
+Theorem C02_refusals_fractional_stacked : forall st keys req o,
+  s_ty st = FRACTIONAL -> 1 <= s_maxfrac st <= 255 -> wf_values st (s_maxfrac st) -> wf_opts o ->
+  o_combine o = false ->
+  ((exists r, seg_frame st keys req o = Ok r) <-> args_ok st req o = true) /\
+  (forall k, seg_frame st keys req o = Err k -> k = "ValueError"%string).
+Proof. exact fractional_stacked_refusals. Qed.
+Print Assumptions C02_refusals_fractional_stacked.
+
+Theorem C02_refusals_fractional_combined : forall st keys req o,
+  wf_fractional_binary st -> wf_opts o -> o_combine o = true ->
+  (seg_frame st keys req o = Err "ValueError" <-> args_ok st req o = false) /\
+  (forall k, seg_frame st keys req o = Err k -> k = "ValueError"%string \/
+             (k = "RuntimeError"%string /\ o_skip o = false)) /\
+  (args_ok st req o = true -> o_skip o = true -> exists r, seg_frame st keys req o = Ok r).
+Proof. exact fractional_combined_refusals. Qed.
+Print Assumptions C02_refusals_fractional_combined.
